@@ -138,7 +138,14 @@ type obs struct {
 	stderr string
 }
 
-func (o obs) answer() string { return fmt.Sprintf("ok %d %s", o.exit, renderSet(o.diags)) }
+// answer: the exit status enters as zero / non-zero only (that is all the property fixes)
+func (o obs) answer() string {
+	e := o.exit
+	if e != 0 {
+		e = 1
+	}
+	return fmt.Sprintf("ok %d %s", e, renderSet(o.diags))
+}
 
 func runBinary(bin, cwd string, args []string, jsonMode bool) (obs, error) {
 	cmd := exec.Command(bin, args...)
